@@ -1,0 +1,108 @@
+//go:build verif
+// +build verif
+
+package onet
+
+import (
+	"sync/atomic"
+	"time"
+)
+
+// Hooks and accessors for the verification harness (build tag "verif").
+// With the tag off, verifPoint is an empty function (verif_overlay_off.go).
+
+var verifHook atomic.Value // of func(name string, key interface{})
+
+// VerifSetHook installs the function called at the named points of the
+// overlay (nil removes it). No lock of the overlay is held at any point.
+func VerifSetHook(f func(name string, key interface{})) {
+	verifHook.Store(&f)
+}
+
+func verifPoint(name string, key interface{}) {
+	if p, ok := verifHook.Load().(*func(name string, key interface{})); ok && p != nil && *p != nil {
+		(*p)(name, key)
+	}
+}
+
+// VerifPendingCount returns the number of parked protocol messages for a tree.
+func (o *Overlay) VerifPendingCount(id TreeID) int {
+	o.pendingMsgLock.Lock()
+	defer o.pendingMsgLock.Unlock()
+	n := 0
+	for _, m := range o.pendingMsg {
+		if m.To != nil && m.To.TreeID.Equal(id) {
+			n++
+		}
+	}
+	return n
+}
+
+// VerifTreeState returns "absent", "requested" or "present" for a tree id,
+// followed by "+armed" when a removal of the tree is scheduled.
+func (o *Overlay) VerifTreeState(id TreeID) string {
+	ts := o.treeStorage
+	ts.Lock()
+	defer ts.Unlock()
+	s := "absent"
+	if t, ok := ts.trees[id]; ok {
+		if t == nil {
+			s = "requested"
+		} else {
+			s = "present"
+		}
+	}
+	if _, ok := ts.cancellations[id]; ok {
+		s += "+armed"
+	}
+	return s
+}
+
+// VerifSetTreeGrace sets the time a tree is kept after its last instance finished.
+func (o *Overlay) VerifSetTreeGrace(d time.Duration) {
+	o.treeStorage.Lock()
+	o.treeStorage.timeout = d
+	o.treeStorage.Unlock()
+}
+
+// VerifInstanceState returns "live", "done" or "none" for a token.
+func (o *Overlay) VerifInstanceState(tok *Token) string {
+	o.instancesLock.Lock()
+	defer o.instancesLock.Unlock()
+	if _, ok := o.instances[tok.ID()]; ok {
+		return "live"
+	}
+	if o.instancesInfo[tok.ID()] {
+		return "done"
+	}
+	return "none"
+}
+
+// VerifInstanceCount returns the number of listed instances.
+func (o *Overlay) VerifInstanceCount() int {
+	o.instancesLock.Lock()
+	defer o.instancesLock.Unlock()
+	return len(o.instances)
+}
+
+// VerifTryLocks reports which of the overlay's locks cannot be taken right
+// now (used after a quiescent point to detect a lock left held).
+func (o *Overlay) VerifTryLocks() []string {
+	var held []string
+	try := func(name string, lock func(), unlock func()) {
+		done := make(chan struct{})
+		go func() { lock(); unlock(); close(done) }()
+		select {
+		case <-done:
+		case <-time.After(2 * time.Second):
+			held = append(held, name)
+		}
+	}
+	try("instancesLock", o.instancesLock.Lock, o.instancesLock.Unlock)
+	try("pendingTreeLock", o.pendingTreeLock.Lock, o.pendingTreeLock.Unlock)
+	try("pendingMsgLock", o.pendingMsgLock.Lock, o.pendingMsgLock.Unlock)
+	try("transmitMux", o.transmitMux.Lock, o.transmitMux.Unlock)
+	try("pendingConfigsMut", o.pendingConfigsMut.Lock, o.pendingConfigsMut.Unlock)
+	try("treeStorage", o.treeStorage.Lock, o.treeStorage.Unlock)
+	return held
+}
